@@ -22,6 +22,10 @@ pub fn inputs() -> Vec<V> {
         V::Char('c'),
         V::True,
         V::Float(1.5),
+        // slices: positions 1..=2 of a keyed list, a slice of a concatenation that starts at its first item, a text slice
+        crate::pool::slice(list(vec![kv("y", V::Int(0)), kv("x", V::Int(11)), kv("zed", V::Int(12)), kv("w", V::Int(13))]), 1, 2),
+        crate::pool::slice(concat(list(vec![kv("x", V::Int(21)), kv("y", V::Int(22))]), list(vec![kv("zed", V::Int(23)), V::Int(24)])), 0, 2),
+        crate::pool::slice(V::str("héllo"), 1, 3),
     ]
 }
 
@@ -242,7 +246,7 @@ pub fn run(ctx: &Ctx) -> (Acc, String, bool) {
     let ins = inputs();
     let resolves = host_resolves();
     let n_small = small.len() as u64;
-    let ex_inputs: Vec<usize> = if ctx.quick() { vec![0, 2, 4] } else { (0..ins.len()).collect() };
+    let ex_inputs: Vec<usize> = if ctx.quick() { vec![0, 2, 4, 11] } else { (0..ins.len()).collect() };
     let ex_total = n_small * ex_inputs.len() as u64;
     // hand-written regression programs (witnesses of past findings), always run on every input
     let fixed: Vec<E> = {
